@@ -39,7 +39,17 @@ def run_rules(pid: str, index: Index, tier: str, seed: int = 0) -> Ctx:
     return ctx
 
 
+def _pin_hash_seed() -> None:
+    """Re-execute with PYTHONHASHSEED=0: set iteration order must never decide a verdict, and pinning
+    the seed makes every run of a check on the same tree bit-for-bit reproducible."""
+    if os.environ.get("PYTHONHASHSEED") != "0" and not os.environ.get("GV_NO_REEXEC"):
+        env = dict(os.environ, PYTHONHASHSEED="0")
+        os.execve(sys.executable, [sys.executable, "-m", "gv.check", *sys.argv[1:]], env)
+
+
 def main(argv: list[str] | None = None) -> int:
+    if argv is None:
+        _pin_hash_seed()
     ap = argparse.ArgumentParser(prog="gv.check")
     ap.add_argument("prop")
     ap.add_argument("--tier", default=os.environ.get("VERIF_TIER", "quick"), choices=["quick", "thorough"])
